@@ -65,7 +65,21 @@ CONTRACTS.update({
              ('each-channel-name-maps-to-its-dataset-name-else-its-own-name',
               'result[self.channels._value[1].name] == (self.channels._value[1]._dataset_name if self.channels._value[1]._dataset_name is not None else self.channels._value[1].name)')]),
  'ChannelItem._compare_element_limit_vs_dimension': dict(
-    props=['C08'], params={'el': 'list[int]*2', 'dim': 'oneof[list[int]*1,list[int]*2,list[int]*3]'}, returns='bool',
+    props=['C08'], inline_in_callers=True, params={'el': 'list[int]*2', 'dim': 'oneof[list[int]*1,list[int]*2,list[int]*3]'}, returns='bool',
     ensures=[('element-limit-bounds-the-dimension-component-wise',
               'result == (len(dim) <= 2 and dim[0] <= el[0] and (len(dim) < 2 or dim[1] <= el[1]))')]),
 })
+
+DIMV = 'oneof[none,list[int]*1,list[int]*2]'
+DA = lambda: {'cls': 'Attribute', 'fields': {'_value': DIMV}}
+CONTRACTS['ChannelItem._run_checks_and_set_defaults'] = dict(
+    props=['C05', 'C08', 'C14'],
+    self_fields={'name': 'str', 'element_limit': DA(), 'dimension': DA(), 'long_name': {'cls': 'Attribute', 'fields': {'_value': 'oneof[none,str]'}}},
+    params={}, returns='none',
+    stubs={'_check_axis_vs_dimension': dict(returns='none', raises=True), 'value.setter': dict(returns='none', capture=True, assign_first_arg_to='_value')},
+    may_raise=['RuntimeError', 'StubException'],
+    ensures=[('dimension-given-by-the-user-is-kept', 'implies(old(self.dimension._value) is not None and len(old(self.dimension._value)) > 0, self.dimension._value == old(self.dimension._value))'),
+             ('element-limit-given-by-the-user-is-kept', 'implies(old(self.element_limit._value) is not None and len(old(self.element_limit._value)) > 0, self.element_limit._value == old(self.element_limit._value))'),
+             ('long-name-given-by-the-user-is-kept', 'implies(old(self.long_name._value) is not None and len(old(self.long_name._value)) > 0, self.long_name._value == old(self.long_name._value))'),
+             ('default-long-name-is-the-channel-name', 'implies(old(self.long_name._value) is None, self.long_name._value == self.name)'),
+             ('default-element-limit-is-the-dimension', 'implies(old(self.element_limit._value) is None and old(self.dimension._value) is not None and len(old(self.dimension._value)) > 0, self.element_limit._value == old(self.dimension._value))')])
